@@ -484,11 +484,15 @@ fn coerce_case(hexmsg: &str, tys: &str, defs: &str) -> String {
     for t in tys.split(',').filter(|t| !t.is_empty() && *t != "-") {
         types.push(tyx::P { s: t.as_bytes(), i: 0 }.ty());
     }
-    match candid::IDLArgs::from_bytes_with_types(&bytes, &env, &types) {
+    let show = |r: candid::Result<candid::IDLArgs>| match r {
         Ok(args) => match args.to_bytes_with_types(&env, &types) {
             Ok(b) => format!("ok {}", hexe(&b)),
             Err(e) => format!("REENCODE-ERR {e}"),
         },
         Err(_) => "err".to_string(),
-    }
+    };
+    // the two typed entry points of IDLArgs must agree (one takes a DecoderConfig; none is set here)
+    let a = show(candid::IDLArgs::from_bytes_with_types(&bytes, &env, &types));
+    let b = show(candid::IDLArgs::from_bytes_with_types_with_config(&bytes, &env, &types, &candid::DecoderConfig::new()));
+    if a == b { a } else { format!("ENTRY-POINTS-DISAGREE with_types={a} with_config={b}") }
 }
